@@ -161,3 +161,20 @@ def classes_of(case, rt):
     if case.get("source") == "corpus":
         cl.append("corpus")
     return cl
+
+
+def long_index_ladder(tier):
+    """SMILES whose ring spans / branch lengths sit around the 1/2/3 index-symbol boundaries, plain and with cis/trans
+    marks on the ring-closure bond (opening digit, closing digit, both) - enumerated, because a handful of generated
+    cases would all be the smallest ones. Yields (name, smiles)."""
+    ns = [14, 15, 16, 17, 254, 255, 256, 257, 300, 4093] if tier == "quick" else \
+        [13, 14, 15, 16, 17, 18, 100, 253, 254, 255, 256, 257, 258, 300, 700, 2000, 4090, 4093]
+    for n in ns:
+        c = "C" * n
+        yield "ring", "C1%sC1" % c
+        yield "branch", "S(%sC)(F)Cl" % c
+        yield "ring_mark_close", "C1%s/C=C/1\\F" % c
+        yield "ring_mark_open", "F/C=C/1%sC1" % c
+        yield "ring_mark_both", "F/C=C/1%sC/1" % c
+        yield "ring_mark_back", "F\\C=C\\1%sC1" % c
+        yield "ring_double", "C=1%sC=1" % c
